@@ -35,7 +35,8 @@ def group_server_cases(cases):
             probes.setdefault(last["c"], last)
     tail = [probes[k] for k in sorted(probes)]
     tail = tail + [p for p in tail if p["c"] in (8, 10, 11, 18)] * 2
-    for o in out:
+    # (at most some 3000 sessions get the tail: the thorough model has hundreds of thousands of negotiation transitions)
+    for o in out[::max(1, len(out) // 3000)]:
         o["steps"] = o["steps"] + tail
     out.extend(by_prefix.values())
     return out
